@@ -276,14 +276,61 @@ class Recorder:
 
     def openql_flat(self, S):
         if os.environ.get('VERIF_OPENQL') != '1':
-            return {'status': 'none', 'flat': [], 'names': [], 'same_twice': True}
+            return {'status': 'none', 'flat': [], 'names': [], 'same_twice': True, 'real': {'status': 'none', 'received': [], 'executed': []}}
         from qce_circuit.language.declarative_circuit import DeclarativeCircuit
         import openql_double
         h = getattr(self, '_handle', None)
         if h is None or h.circuit_structure is not S:
             h = DeclarativeCircuit()
             h._structure = S
-        return openql_double.export(h)
+        d = openql_double.export(h)
+        d['real'] = self.openql_real(h) if getattr(self, 'want_real', False) else {'status': 'none', 'received': [], 'executed': []}
+        return d
+
+    _real_n = 0
+
+    def openql_real(self, h):
+        """The same circuit through the REAL OpenQL: exported, compiled, and both listings OpenQL writes -- the program it
+        received (<name>.qasm) and the program it scheduled for execution (<name>_scheduled.qasm) -- read back per qubit."""
+        import re
+        import tempfile
+        from pathlib import Path
+        try:
+            import openql as ql
+            from qce_circuit.addon_openql.platform_manager import PlatformManager
+            from qce_circuit.addon_openql.factory_manager import to_openql
+            out = tempfile.mkdtemp(prefix='verif_ql_')
+            PlatformManager.openql_output_directory = classmethod(lambda cls: Path(out))
+            Recorder._real_n += 1
+            name = 'verif%d_%d' % (os.getpid(), Recorder._real_n)
+            fd = os.dup(1)
+            devnull = os.open(os.devnull, os.O_WRONLY)
+            os.dup2(devnull, 1)                        # OpenQL's C++ side logs to file descriptor 1
+            try:
+                prog = to_openql(h, circuit_id=name)
+                ql.set_option('output_dir', out)
+                prog.compile()
+            finally:
+                os.dup2(fd, 1)
+                os.close(fd)
+                os.close(devnull)
+
+            def per_qubit(path):
+                res = {}
+                for line in open(path):
+                    line = line.split('#')[0].strip().strip('{}').strip()
+                    m = re.match(r'^([a-z_0-9]+)\s+(.*q\[\d+\].*)$', line)
+                    if not m:
+                        continue
+                    for qb in re.findall(r'q\[(\d+)\]', m.group(2)):
+                        res.setdefault(int(qb), []).append(m.group(1))
+                return [[qb, res[qb]] for qb in sorted(res)]
+            r = {'status': 'ok', 'received': per_qubit(os.path.join(out, name + '.qasm')), 'executed': per_qubit(os.path.join(out, name + '_scheduled.qasm'))}
+            import shutil
+            shutil.rmtree(out, ignore_errors=True)
+            return r
+        except Exception as e:
+            return {'status': 'error:' + e.__class__.__name__ + ':' + str(e)[:160], 'received': [], 'executed': []}
 
     def acq_filters(self, S, ops):
         """get_acquisition_indices by qubit and by (qubit, tag) through a handle on the structure, and the order of
